@@ -2,21 +2,22 @@
 """Run each seeded change (and each reverted fix) against the check of the property it breaks.
    Writes /verif/seeded/_matrix.json: {key: {rc, lines}}"""
 import glob, json, os, re, subprocess, sys
-OUT = "/verif/seeded/_matrix.json"
+VH = os.environ.get("VERIF_HOME", "/verif")
+OUT = os.environ.get("MATRIX_OUT", VH + "/seeded/_matrix.json")
 res = json.load(open(OUT)) if os.path.exists(OUT) else {}
 REG = {"1b258a3": "C05", "de01f4b": "C06", "314fa4a": "C02", "5a13073": "C02", "d6ab1e3": "C11", "14c15fa": "C05", "c015c6a": "C05", "142b2d4": "C19"}
 jobs = []
-for d in sorted(glob.glob("/verif/seeded/C[0-9][0-9]-[0-9]*")):
+for d in sorted(glob.glob(VH + "/seeded/C[0-9][0-9]-[0-9]*")):
     pid, k = os.path.basename(d).split("-")
     jobs.append(("%s/%s" % (pid, k), d + "/patch.diff", pid))
-for f in sorted(glob.glob("/verif/seeded/_regress/revert-*.diff")):
+for f in sorted(glob.glob(VH + "/seeded/_regress/revert-*.diff")):
     h = re.search(r"revert-(\w+)\.diff", f).group(1)
     jobs.append(("revert-" + h, f, REG[h]))
 want = sys.argv[1:]
 for key, patch, pid in jobs:
     if want and key not in want and pid not in want:
         continue
-    p = subprocess.run(["/verif/tools/try_patch.sh", patch, pid], capture_output=True, text=True)
+    p = subprocess.run([VH + "/tools/try_patch.sh", patch, pid], capture_output=True, text=True)
     lines = [l for l in p.stdout.splitlines() if l.startswith(("VIOLATION", "UNDECIDED", "OK ", "failed obligation", "PATCH"))]
     rc = p.returncode
     res[key] = {"property": pid, "rc": rc, "verdict": {0: "MISSED", 1: "VIOLATION", 2: "UNDECIDED"}.get(rc, "other:%d" % rc),
